@@ -67,6 +67,9 @@ def constraint_pool(u, rng):
         lambda: c.Not(b), lambda: b == c.ULT(x, y), lambda: c.If(b, x, y) == k(), lambda: x - y == k(),
         lambda: c.LShR(x, 1) == k(), lambda: (x << 1) == k(), lambda: x % 3 == 1, lambda: c.ZeroExt(1, z)[3:0] == x,
         lambda: c.Concat(x, y) == c.BVV(rng.getrandbits(8), 8), lambda: c.SignExt(1, z) == x, lambda: x // c.BVV(3, 4) == 2,
+        # division and remainder by a variable (SMT-LIB: x/0 is all ones, x%0 is x): concrete evaluation of these raises
+        lambda: x // y == k(), lambda: x % y == k(), lambda: c.SDiv(x, y) == k(), lambda: y // c.ZeroExt(1, z) == k(),
+        lambda: c.SMod(x, y) == k(),
     ]
     return forms
 
